@@ -13,7 +13,7 @@ from vpkit import common, zoo
 
 ID = "C02"
 N = {"quick": 240, "thorough": 8000}
-BUDGET = {"quick": 240.0, "thorough": 1200.0}
+BUDGET = {"quick": 240.0, "thorough": 700.0}
 RULE = ("case = (decorated zoo input with metadata/individuals/populations/(migrations), method, "
         "set_metadata, phasing); distinct by (topology hash, decoration, method, options); "
         "non-trivial = date() returned and all tables were diffed")
